@@ -4,7 +4,8 @@ from sfv import STDLIB_AXIOMS_ALLOWED
 
 THEOREMS = {
     "C01": ["C01_roundtrip_seq", "C01_roundtrip_index", "C01_same_type", "C01_xyz_bit_identical", "C01_measures", "C01_measure_rule",
-            "C01_kinds_and_box", "C01_roles", "C01_roles_kept"],
+            "C01_kinds_and_box", "C01_roles", "C01_roles_kept", "C01_roundtrip_by_path", "C01_by_path_without_index",
+            "C01_second_shapefile_harmless"],
     "C02": ["C02_record", "C02_emits_spec", "C02_conformant", "C02_geometry_recovered"],
     "C04": ["C04_shx_layout", "C04_entries", "C04_entries_address_records", "C04_reader", "C04_hint_and_count"],
     "C14": ["C14_index_governs", "C14_iteration_is_index_order", "C14_nth_agrees"],
@@ -23,7 +24,8 @@ THEOREMS = {
     "C16": ["C16_rings", "C16_vertices", "C16_closed", "C16_orientation", "C16_idempotent", "C16_multipatch",
             "C16_test_is_exact_sign", "C16_area_of_reverse", "C16_orientation_exact", "C16_idempotent_exact"],
     "C17": ["C17_requests", "C17_index_requests", "C17_record_requests"],
-    "C08": ["C08_rejected_call", "C08_history", "C08_pairs", "C08_pairs_spec"],
+    "C08": ["C08_rejected_call", "C08_history", "C08_pairs", "C08_pairs_spec", "C08_files_of_two_shapefiles_disjoint",
+            "C08_three_files", "C08_missing_dbf", "C08_open_after_write"],
     "C20": ["C20_to_geo", "C20_polygon_grouping", "C20_back", "C20_from_geo", "C20_refusals", "C20_dims"],
     "C03": ["C03_record", "C03_decodes_conformant"],
     "C09": ["C09_finalize_irrelevant", "C09_files", "C09_finalize_complete", "C09_clean_finalize_silent"],
@@ -52,7 +54,7 @@ AXIOMS = {"C16_test_is_exact_sign": FLOCQ, "C16_orientation_exact": FLOCQ, "C16_
           "C07_bounded_noindex": FLOCQ,
           "C06_typed_vs_generic": FLOCQ, "C06_typed_iteration": FLOCQ, "C06_typed_is_generic_converted": FLOCQ, "C06_never_wrong_type": FLOCQ, "C06_dispatch": FLOCQ,
           "C05_shape_box": FLOCQ,
-          "C01_roundtrip_index": FLOCQ, "C04_shx_layout": set(), "C04_entries_address_records": FLOCQ, "C04_reader": FLOCQ,
+          "C01_roundtrip_index": FLOCQ, "C01_roundtrip_by_path": FLOCQ, "C04_shx_layout": set(), "C04_entries_address_records": FLOCQ, "C04_reader": FLOCQ,
           "C04_hint_and_count": FLOCQ, "C14_index_governs": FLOCQ, "C14_iteration_is_index_order": FLOCQ, "C14_nth_agrees": FLOCQ,
           "C15_history": FLOCQ, "C15_nth_and_count_stable": FLOCQ, "C15_iteration": FLOCQ, "C15_partial_iteration": FLOCQ,
           "C15_positions": FLOCQ,
